@@ -106,6 +106,12 @@ let handle (s : sexp) : string = match s with
       let phis = list_of q_of phis in
       let f = { lp_dmin = z_of dmin; lp_coefs = list_of q_of coefs; lp_isz = false } in
       "(" ^ sb (check_ipoly phis f (q_of tol)) ^ " " ^ so sz (ipoly_norm phis f) ^ ")"
+  | L [A "c07"; phis; p; eps; suc] ->
+      let phis = list_of q_of phis and p = list_of q_of p in
+      let eps = q_of eps and suc = q_of suc in
+      "(" ^ sb (check_c07 phis p eps suc) ^ " " ^ so sz (c07_norm phis p suc) ^ ")"
+  | L [A "roundtrip"; phis; phis2; tol; stol] ->
+      sb (check_roundtrip (list_of q_of phis) (list_of q_of phis2) (q_of tol) (q_of stol))
   | L [A "scale"] -> sz scaleZ
   | _ -> failwith "unknown command"
 
